@@ -712,6 +712,13 @@ func (e *SpecEnv) call(x *ast.CallExpr) T {
 			sfail("contains: want ([]string, string), got (%s, %s)", sl.Sort, xx.Sort)
 		}
 		return e.ex.sliceContains(e.cur, sl, xx)
+	case "ghost":
+		// ghost(name): current value of a ghost counter (see PState.Ghost)
+		id, ok := x.Args[0].(*ast.Ident)
+		if !ok {
+			sfail("ghost: argument must be a counter name")
+		}
+		return e.cur.Ghost(id.Name)
 	case "traceN":
 		return e.cur.traceN
 	case "traceAt":
